@@ -67,6 +67,7 @@ func dev(args []string) {
 	family := fs.String("family", "", "router: generate the router family into -scratch and verify the generated packages")
 	setsFlag := fs.String("sets", "", "comma-separated route-set ids (default all corner sets)")
 	scratch := fs.String("scratch", "/tmp/govc-family", "")
+	moddir := fs.String("moddir", "", "load packages of another module: -moddir DIR ./pkg ...")
 	fs.Parse(args)
 	t0 := time.Now()
 	cfg := eng.Config{RepoDir: *repo, Pkgs: fs.Args(), MirrorDir: "/verif/contracts", StdlibDir: "/verif/stdlib"}
@@ -90,6 +91,32 @@ func dev(args []string) {
 			cfg.Extra = append(cfg.Extra, eng.ExtraPkg{Dir: mod + "/" + rs.ID, Pattern: "./" + rs.ID})
 		}
 		cfg.Extra = append(cfg.Extra, eng.ExtraPkg{Dir: *repo + "/uri", Pattern: "github.com/ogen-go/ogen/uri", Mirror: "/verif/contracts/uri"})
+	}
+	if *moddir != "" {
+		cfg.ModDir = *moddir
+		cfg.Pkgs = nil
+		for _, p := range fs.Args() {
+			cfg.Extra = append(cfg.Extra, eng.ExtraPkg{Dir: *moddir + "/" + strings.TrimPrefix(p, "./"), Pattern: p})
+		}
+	}
+	if *family == "security" {
+		os.MkdirAll(*scratch, 0o755)
+		var sets []eng.SecuritySet
+		for _, q := range eng.SecurityFamily() {
+			if *setsFlag == "" || strings.Contains(","+*setsFlag+",", ","+q.ID+",") {
+				sets = append(sets, q)
+			}
+		}
+		mod, err := eng.GenerateSecurityFamily(*repo, sets, *scratch)
+		if err != nil {
+			fmt.Fprintln(os.Stderr, "family:", err)
+			os.Exit(2)
+		}
+		cfg.ModDir = mod
+		cfg.Pkgs = nil
+		for _, q := range sets {
+			cfg.Extra = append(cfg.Extra, eng.ExtraPkg{Dir: mod + "/" + q.ID, Pattern: "./" + q.ID})
+		}
 	}
 	e, err := eng.Load(cfg)
 	if err != nil {
